@@ -22,6 +22,9 @@ Allowances (never tuned; `dev/tol` maxima are recorded in the evidence as the me
     MGDA(default): self-certified:  |A - A'| <= sqrt(gap) + sqrt(gap'), gap = a^T G a - min_i (G a)_i
            >= |J^T a|^2 - |min-norm point|^2 >= |J^T a - min-norm point|^2  (projection inequality)
     CAGrad: predicate level (conic solver): 1e-4 * ref   (sqrt of CLARABEL's 1e-8 tolerance)
+    wide presentations (C08, PadZero / WideTo): the same allowances as for the narrow matrix - the Gramian is the
+           same and the entries of the presented matrix are 2^-wk times entries of the narrow one
+    near-max family (C10, float32): 64 * 2^-23 * 4 m^2 * max|J| in units of the lattice (float64: by value)
 """
 
 from __future__ import annotations
@@ -43,7 +46,7 @@ REG_EPS = 1e-4
 # ------------------------------------------------------------------------------------------ TLC
 
 
-GENERATORS = {"C08": ["DoSwapCols", "DoNegCol", "DoHadamard", "AppendZero", "PadZero|DoPadZero"],
+GENERATORS = {"C08": ["DoSwapCols", "DoNegCol", "DoHadamard", "AppendZero", "PadZero|DoPadZero", "WideTo|DoWide"],
               "C09": ["DoBumpC1", "DoBumpC2", "BumpA", "BumpB"],
               "C10": ["DoSwapRows"]}
 INVARIANT_OF = {"C08": "LawC08", "C09": "LawC09", "C10": "LawC10"}
@@ -65,7 +68,7 @@ def model_check(ctx: Ctx, pid: str, cfgs: list[str]) -> list[dict]:
         need = {"cols": GENERATORS["C08"], "scale": GENERATORS["C09"], "rows": GENERATORS["C10"],
                 "mixed": GENERATORS["C08"] + GENERATORS["C10"]}.get(mode, [])
         for act in need:
-            if mode == "mixed" and "PadZero" in act:
+            if mode == "mixed" and ("PadZero" in act or "Wide" in act):
                 continue                      # the mixed configuration offers no padding counts
             if not any(res.coverage.get(a) for a in act.split("|")):
                 raise MachineryError(f"vacuous model check ({cfg}): generator {act} never taken")
@@ -83,30 +86,61 @@ def ld(mat, e: int, den: int = 1) -> torch.Tensor:
     return torch.ldexp(torch.tensor(mat, dtype=F64) / den, torch.tensor(e))
 
 
+def presented(s: dict) -> bool:
+    """The scenario carries a presentation (PadZero / WideTo) that only the replay materialises."""
+    return s["pad"]["cnt"] > 0 or s["pad"].get("wk", 0) > 0
+
+
 def present(M: torch.Tensor, s: dict) -> torch.Tensor:
-    """The matrix actually handed to the aggregators: the materialised columns of the scenario at the positions
-    `padpos` exported by the model (spec PadPos), all-zero columns everywhere else (PadZero(k, layout))."""
-    k = s["pad"]["cnt"]
-    if not k:
+    """The matrix actually handed to the aggregators (spec WideTo / PadZero): every column repeated 4^wk times and
+    scaled by 2^-wk (exact), placed at the positions of the layout, all-zero columns everywhere else."""
+    if not presented(s):
         return M
-    out = torch.zeros(M.shape[0], M.shape[1] + k, dtype=M.dtype)
-    out[:, pad_index(s)] = M
+    k, wk = s["pad"]["cnt"], s["pad"].get("wk", 0)
+    Mw = torch.ldexp(M.repeat_interleave(4 ** wk, dim=1), torch.tensor(-wk)) if wk else M
+    out = torch.zeros(M.shape[0], Mw.shape[1] + k, dtype=M.dtype)
+    out[:, pad_index(s)] = Mw
     return out
 
 
 def pad_index(s: dict) -> torch.Tensor:
-    return torch.tensor([p - 1 for p in s["padpos"]], dtype=torch.long)
+    """0-based positions of the N 4^wk materialised columns, computed here (PPos of the specification re-implemented)
+    and cross-checked against the positions exported by the model / logged by the driver: `padpos` = position of
+    the first copy of every column and of the last materialised column."""
+    k, wk, lay = s["pad"]["cnt"], s["pad"].get("wk", 0), s["pad"]["lay"]
+    n = len(s["padpos"]) - 1
+    r = 4 ** wk
+    nw = n * r
+    j = torch.arange(1, nw + 1, dtype=torch.long)
+    pos = j + ((j - 1) * k) // nw if lay == "interleave" else j + k if lay == "prepend" else j
+    probes = [(q - 1) * r + 1 for q in range(1, n + 1)] + [nw]
+    if [int(pos[q - 1]) for q in probes] != list(s["padpos"]):
+        raise MachineryError(f"presentation {s['pad']}: positions {[int(pos[q - 1]) for q in probes]} computed by the replay "
+                             f"differ from the model's {s['padpos']}")
+    return pos - 1
 
 
 def split_padded(x: torch.Tensor, s: dict) -> tuple[torch.Tensor, float]:
     """(entries of x on the materialised columns, largest |entry| on the padded zero columns)"""
-    if not s["pad"]["cnt"]:
+    if not presented(s):
         return x, 0.0
     idx = pad_index(s)
     mask = torch.ones(x.shape[-1], dtype=torch.bool)
     mask[idx] = False
     rest = x[..., mask]
     return x[..., idx], (float(rest.abs().max()) if rest.numel() else 0.0)
+
+
+def narrow_of(xm: torch.Tensor, s: dict) -> tuple[torch.Tensor, float]:
+    """The vector on the materialised columns of a wide presentation brought back to the columns of the matrix:
+    (2^wk * mean over the 4^wk copies of every column, largest spread between two copies of one column * 2^wk).
+    Differences of two copies are kernel vectors of the wide matrix, the lifted kernel vectors act on the means."""
+    wk = s["pad"].get("wk", 0)
+    if not wk:
+        return xm, 0.0
+    xb = xm.reshape(-1, 4 ** wk)
+    spread = float((xb.max(dim=1).values - xb.min(dim=1).values).max())
+    return torch.ldexp(xb.mean(dim=1), torch.tensor(wk)), math.ldexp(spread, wk)
 
 
 def rationalise(x: float, D: int = 10 ** 4):
@@ -119,15 +153,23 @@ def rationalise(x: float, D: int = 10 ** 4):
     return f
 
 
-def rat_vec_equal(x: torch.Tensor, expected: list, e: int) -> tuple[bool, list]:
-    """Code output (at scale 2^e) against the model's rational vector [[num, den], ...]."""
+def rat_vec_equal(x: torch.Tensor, expected: list, e: int, wk: int = 0) -> tuple[bool, list]:
+    """Code output (at scale 2^e) against the model's rational vector [[num, den], ...].  wk > 0: x lives on the
+    materialised columns of a wide presentation - EVERY one of the 4^wk copies of column j must be expected[j] 2^-wk
+    (the distinct float values of a block are rationalised, normally there is one)."""
     got = []
-    ok = len(x) == len(expected)
-    for j, v in enumerate(x.tolist()):
-        f = rationalise(math.ldexp(v, -e))
+    r = 4 ** wk
+    ok = len(x) == len(expected) * r
+    if not ok:
+        return False, [f"{len(x)} entries for {len(expected)} columns x {r}"]
+    for j in range(len(expected)):
+        vals = [float(x[j])] if not wk else torch.unique(x[j * r:(j + 1) * r]).tolist()
+        for v in vals:
+            f = rationalise(math.ldexp(v, wk - e))
+            if f is None or f != Fraction(expected[j][0], expected[j][1]):
+                ok = False
+        f = rationalise(math.ldexp(vals[0], wk - e))
         got.append("irr" if f is None else [f.numerator, f.denominator])
-        if ok and (f is None or f != Fraction(expected[j][0], expected[j][1])):
-            ok = False
     return ok, got
 
 
@@ -392,7 +434,7 @@ def fmt(t) -> list | str:
 def sample_scenarios(scn: list[dict], budget: int, rng: random.Random, keep=lambda s: False) -> list[dict]:
     """Deterministic sub-sample: all scenarios satisfying `keep` first, the rest drawn with rng."""
     scn = sorted(scn, key=lambda s: (s["id"], s["steps"], str(s["rp"]), str(s["Q"]), str(s["c1"]), str(s["c2"]),
-                                     s["a"], s["b"], s["pad"]["cnt"], s["pad"]["lay"]))
+                                     s["a"], s["b"], s["pad"]["cnt"], s["pad"]["lay"], s["pad"].get("wk", 0)))
     must = [s for s in scn if keep(s)]
     rest = [s for s in scn if not keep(s)]
     if len(must) + len(rest) <= budget:
